@@ -133,6 +133,18 @@ def ev(body, e, leaf, depth=0):
                         except Unknown:
                             d[str(i)] = None
                     return d
+        if adt and adt.get('kind') == 'struct' and not owner.startswith(('core::', 'alloc::')) and len(adt.get('variants', [])) == 1:
+            d = {}                                   # a crate-local struct / newtype built in place: its fields by position and name
+            names = [f_['name'] for f_ in adt['variants'][0].get('fields', [])]
+            for i, a in enumerate(e[2]):
+                try:
+                    v_ = rec(a)
+                except Unknown:
+                    v_ = None
+                d[str(i)] = v_
+                if i < len(names):
+                    d[names[i]] = v_
+            return d
         raise Unknown('aggr %s' % e[1])
     if k == 'binop':
         op = e[1].replace('Unchecked', '')
